@@ -51,7 +51,7 @@ fn observe(g: &GraphModel, strat: &str, cfg: &Cfg) -> String {
     let cfg = cfg.clone();
     let r = catch_unwind(AssertUnwindSafe(move || {
         let mut b = g2.clone().checker().threads(1).finish_when(cfg.has_disc())
-            .visitor(move |p: stateright::Path<u16, u8>| { v2.lock().unwrap().push(p.into_states()); });
+            .visitor(move |p: stateright::Path<u16, u16>| { v2.lock().unwrap().push(p.into_states()); });
         if let Some(d) = cfg.max_depth { b = b.target_max_depth(d); }
         if let Some(t) = cfg.target { b = b.target_state_count(t); }
         let (uniq, count, depth, disc): (usize, usize, usize, BTreeMap<usize, Vec<u16>>) = match strat.as_str() {
@@ -86,7 +86,7 @@ impl stateright::Chooser<GraphModel> for ScriptChooser {
     type State = ();
     fn new_state(&self, _seed: u64) {}
     fn choose_initial_state(&self, _: &mut (), initial_states: &[u16]) -> usize { self.answer(initial_states.len()) }
-    fn choose_action(&self, _: &mut (), _cur: &u16, actions: &[u8]) -> usize { self.answer(actions.len()) }
+    fn choose_action(&self, _: &mut (), _cur: &u16, actions: &[u16]) -> usize { self.answer(actions.len()) }
 }
 
 /// run the real simulation checker with a scripted chooser (1 thread)
@@ -98,7 +98,7 @@ fn observe_sim(g: &GraphModel, cfg: &Cfg, script: &[usize]) -> String {
     let chooser = ScriptChooser { script: Arc::new(script.to_vec()), pos: Arc::new(std::sync::atomic::AtomicUsize::new(0)) };
     let r = catch_unwind(AssertUnwindSafe(move || {
         let mut b = g2.clone().checker().threads(1).finish_when(cfg.has_disc())
-            .visitor(move |p: stateright::Path<u16, u8>| { v2.lock().unwrap().push(p.into_states()); });
+            .visitor(move |p: stateright::Path<u16, u16>| { v2.lock().unwrap().push(p.into_states()); });
         if let Some(d) = cfg.max_depth { b = b.target_max_depth(d); }
         if let Some(t) = cfg.target { b = b.target_state_count(t); }
         let c = b.spawn_simulation(0, chooser).join();
@@ -251,7 +251,7 @@ fn main() {
             let g2 = g.clone();
             let res = catch_unwind(AssertUnwindSafe(move || {
                 let b = g2.clone().checker().threads(threads)
-                    .visitor(move |p: stateright::Path<u16, u8>| {
+                    .visitor(move |p: stateright::Path<u16, u16>| {
                         v2.lock().unwrap().push(p.into_states());
                         w2.lock().unwrap().insert(std::thread::current().name().unwrap_or("?").to_string());
                     });
@@ -297,6 +297,86 @@ fn main() {
                 }
             }
         }
+    }
+
+    // ---- 4. single-threaded runs on LONG and WIDE graphs (more than one 1500-job block) ----------------
+    // corridor (every state has one real successor plus a self-loop / ignored action), star (one hub with
+    // thousands of leaves), many initial states; the witness of p1/p2 sits at the far end / last leaf.
+    if prop == "c01" || prop == "c02" || prop == "c03" || prop == "c13" {
+        let shapes = ["corridor", "star", "many-init", "comb"];
+        let reps = if th { 6 } else { 1 };
+        for rep in 0..reps {
+            for shape in shapes {
+                let n = 1800 + r.below(if th { 4000 } else { 1500 });
+                let mut adj: Vec<Vec<Option<u16>>> = vec![vec![]; n];
+                let mut init: Vec<u16> = vec![0];
+                match shape {
+                    "corridor" => { for s in 0..n - 1 { adj[s] = vec![Some(s as u16), Some((s + 1) as u16), None]; } }
+                    "star" => { adj[0] = (1..n).map(|t| Some(t as u16)).collect(); }
+                    "many-init" => { init = (0..n as u16).collect(); for s in 0..n { if s % 7 == 0 && s + 1 < n { adj[s] = vec![Some((s + 1) as u16)]; } } }
+                    _ => { // comb: a spine with a tooth of length 2 at every spine state
+                        let spine = n / 3;
+                        for s in 0..spine { let mut v = vec![Some((spine + 2 * s) as u16)]; if s + 1 < spine { v.push(Some((s + 1) as u16)); } adj[s] = v; adj[spine + 2 * s] = vec![Some((spine + 2 * s + 1) as u16)]; }
+                    }
+                }
+                let far = n - 1;
+                let tbl_far: Vec<bool> = (0..n).map(|s| s == far).collect();
+                let g = GraphModel { n, init, adj, bnd: vec![true; n], props: vec![
+                    GProp { exp: 'a', tbl: vec![true; n] },
+                    GProp { exp: 's', tbl: tbl_far.clone() },
+                    GProp { exp: 'a', tbl: tbl_far.iter().map(|b| !*b).collect() },
+                ], panic_at: None };
+                let reach = g.reach();
+                for strat in strategies {
+                    let visits: Arc<Mutex<Vec<Vec<u16>>>> = Arc::new(Mutex::new(vec![]));
+                    let v2 = visits.clone();
+                    let g2 = g.clone();
+                    let res = catch_unwind(AssertUnwindSafe(move || {
+                        let b = g2.clone().checker().threads(1)
+                            .visitor(move |p: stateright::Path<u16, u16>| { v2.lock().unwrap().push(p.into_states()); });
+                        match strat {
+                            "bfs" => summarize(&b.spawn_bfs().join()),
+                            "dfs" => summarize(&b.spawn_dfs().join()),
+                            _ => { let c = b.spawn_on_demand(); c.run_to_completion(); summarize(&c.join()) }
+                        }
+                    }));
+                    let desc = format!("{} n={} reach={} strategy={} threads=1 seed={} rep={}", shape, n, reach.len(), strat, seed(), rep);
+                    match res {
+                        Err(_) => out.v("big1-panic", &desc),
+                        Ok((uniq, count, _depth, disc)) => {
+                            let vs = visits.lock().unwrap();
+                            let mut lasts: Vec<u16> = vs.iter().map(|p| *p.last().unwrap()).collect();
+                            lasts.sort();
+                            if prop == "c01" {
+                                if lasts.windows(2).any(|w| w[0] == w[1]) { out.v("big1-state-evaluated-twice", &desc); }
+                                if lasts != reach { out.v("big1-evaluated-set-not-reachable-set", &format!("{} evaluated={}", desc, lasts.len())); }
+                                if uniq != reach.len() { out.v("big1-unique-count", &format!("{} uniq={}", desc, uniq)); }
+                                if count < uniq { out.v("big1-state-count-below-unique", &desc); }
+                                if !vs.iter().all(|p| g.is_path(p)) { out.v("big1-visited-path-invalid", &desc); }
+                            }
+                            if prop == "c02" {
+                                let ex = reach.contains(&(far as u16));
+                                if disc.contains_key(&1) != ex { out.v("big1-sometimes-verdict", &desc); }
+                                if disc.contains_key(&2) != ex { out.v("big1-always-verdict", &desc); }
+                                if disc.contains_key(&0) { out.v("big1-always-true-discovered", &desc); }
+                            }
+                            if prop == "c03" || prop == "c02" {
+                                for (i, p) in &disc {
+                                    if !g.is_path(p) || *p.last().unwrap() as usize != far { out.v("big1-discovery-not-witness-path", &format!("{} prop={}", desc, i)); }
+                                }
+                            }
+                            if prop == "c13" && strat == "bfs" {
+                                let lens: Vec<usize> = vs.iter().map(|p| p.len()).collect();
+                                if lens.windows(2).any(|w| w[0] > w[1]) { out.v("big1-bfs-depths-decrease", &desc); }
+                            }
+                            out.stat("big-single-thread-runs");
+                            out.stat(&format!("big-shape-{}", shape));
+                        }
+                    }
+                }
+            }
+        }
+        out.sample("long/wide single-threaded graphs: corridor, star, many-init, comb with 1800-3300 states (more than one 1500-job block)");
     }
     out.finish();
 }
